@@ -12,6 +12,7 @@ import (
 	"path/filepath"
 	"runtime"
 	"runtime/debug"
+	"sort"
 	"strings"
 
 	"github.com/notaryproject/notation-core-go/signature"
@@ -723,12 +724,20 @@ func (x *wctx) runDocument(c *Case, res *Result) error {
 					class = "loaded-valid-constructor-refused"
 					return
 				}
-				*stage = "verifier.Verify"
-				o, err := v.Verify(ctx, x.fx.Desc, x.fx.Sigs["oci/jws"], notation.VerifierVerifyOptions{ArtifactReference: ref, SignatureMediaType: mtJWS})
-				touchOutcome(o, stage)
-				class = "loaded-valid:verify-" + judgeVerifier(res, "verifier.Verify", c, o, err)
-				*stage = "notation.Verify"
-				_ = x.judgeNotationVerify(res, c, stage, v, &mockRepo{desc: x.fx.Desc, sig: x.fx.Sigs["oci/jws"], mt: mtJWS}, ref)
+				// an accepted document must never crash verification: every statement, all entry points
+				refs := []string{ref}
+				for i := range doc.TrustPolicies {
+					for _, sc := range doc.TrustPolicies[i].RegistryScopes {
+						r := sc + "@" + x.fx.Desc.Digest.String()
+						if sc == "*" {
+							r = "unlisted.example/x@" + x.fx.Desc.Digest.String()
+						}
+						if len(refs) < 6 && !contains(refs, r) {
+							refs = append(refs, r)
+						}
+					}
+				}
+				class = "loaded-valid:" + x.exerciseOCI(res, c, stage, v, refs)
 			})
 			res.class("%s%s:%s", pre, path, class)
 		}
@@ -769,18 +778,13 @@ func (x *wctx) runDocument(c *Case, res *Result) error {
 				class = "loaded-valid-constructor-refused"
 				return
 			}
-			var cls []string
-			for _, name := range []string{"p", ""} {
-				*stage = "verifier.VerifyBlob"
-				o, err := v.VerifyBlob(ctx, blobDescGen(x.fx.Blob), x.fx.Sigs["blob/jws"], notation.BlobVerifierVerifyOptions{SignatureMediaType: mtJWS, TrustPolicyName: name})
-				touchOutcome(o, stage)
-				cls = append(cls, judgeVerifier(res, "verifier.VerifyBlob", c, o, err))
-				*stage = "notation.VerifyBlob"
-				_, o, err = notation.VerifyBlob(ctx, v, bytes.NewReader(x.fx.Blob), x.fx.Sigs["blob/jws"], notation.VerifyBlobOptions{BlobVerifierVerifyOptions: notation.BlobVerifierVerifyOptions{SignatureMediaType: mtJWS, TrustPolicyName: name}})
-				touchOutcome(o, stage)
-				_ = judgeNotationVerifyBlob(res, c, o, err)
+			names := []string{"p", ""}
+			for i := range doc.TrustPolicies {
+				if n := doc.TrustPolicies[i].Name; len(names) < 7 && !contains(names, n) {
+					names = append(names, n)
+				}
 			}
-			class = "loaded-valid:named-" + cls[0] + ",global-" + cls[1]
+			class = "loaded-valid:" + x.exerciseBlob(res, c, stage, v, names)
 		})
 		res.class("%s%s", pre, class)
 	case "signingkeys":
@@ -889,6 +893,71 @@ func (x *wctx) runDocument(c *Case, res *Result) error {
 		return fmt.Errorf("unknown document kind %q", c.Kind)
 	}
 	return nil
+}
+
+func contains(l []string, s string) bool {
+	for _, e := range l {
+		if e == s {
+			return true
+		}
+	}
+	return false
+}
+
+type sigCase struct {
+	name string
+	sig  []byte
+	mt   string
+}
+
+func (x *wctx) sigCases(kind string) []sigCase {
+	return []sigCase{{"jws", x.fx.Sigs[kind+"/jws"], mtJWS}, {"cose", x.fx.Sigs[kind+"/cose"], mtCOSE}, {"garbage", []byte("\x00\xffgarbage{[\"not an envelope"), mtJWS}, {"empty", []byte{}, mtJWS}}
+}
+
+func summarise(seen map[string]bool) string {
+	var ks []string
+	for k := range seen {
+		ks = append(ks, k)
+	}
+	sort.Strings(ks)
+	return strings.Join(ks, "|")
+}
+
+// exerciseOCI calls verifier.Verify and notation.Verify with every signature kind under every reference
+// (one per registry scope of the accepted document) and judges each call. Runs inside the caller's protected region.
+func (x *wctx) exerciseOCI(res *Result, c *Case, stage *string, v bothVerifier, refs []string) string {
+	seen := map[string]bool{}
+	for _, ref := range refs {
+		for _, sc := range x.sigCases("oci") {
+			*stage = "verifier.Verify"
+			o, err := v.Verify(ctx, x.fx.Desc, sc.sig, notation.VerifierVerifyOptions{ArtifactReference: ref, SignatureMediaType: sc.mt})
+			touchOutcome(o, stage)
+			seen[judgeVerifier(res, "verifier.Verify", c, o, err)] = true
+			*stage = "notation.Verify"
+			seen[x.judgeNotationVerify(res, c, stage, v, &mockRepo{desc: x.fx.Desc, sig: sc.sig, mt: sc.mt}, ref)] = true
+			res.Evals += 2
+		}
+	}
+	return summarise(seen)
+}
+
+// exerciseBlob does the same for verifier.VerifyBlob and notation.VerifyBlob under every statement name and the global statement.
+func (x *wctx) exerciseBlob(res *Result, c *Case, stage *string, v bothVerifier, names []string) string {
+	seen := map[string]bool{}
+	for _, name := range names {
+		for _, sc := range x.sigCases("blob") {
+			*stage = "verifier.VerifyBlob"
+			o, err := v.VerifyBlob(ctx, blobDescGen(x.fx.Blob), sc.sig, notation.BlobVerifierVerifyOptions{SignatureMediaType: sc.mt, TrustPolicyName: name})
+			touchOutcome(o, stage)
+			seen[judgeVerifier(res, "verifier.VerifyBlob", c, o, err)] = true
+			*stage = "notation.VerifyBlob"
+			_, o, err = notation.VerifyBlob(ctx, v, bytes.NewReader(x.fx.Blob), sc.sig, notation.VerifyBlobOptions{BlobVerifierVerifyOptions: notation.BlobVerifierVerifyOptions{SignatureMediaType: sc.mt, TrustPolicyName: name}})
+			touchOutcome(o, stage)
+			seen["nvb-"+judgeNotationVerifyBlob(res, c, o, err)] = true
+			res.Evals += 2
+		}
+	}
+	return summarise(seen)
 }
 
 // ---------------------------------------------------------------------------
